@@ -135,7 +135,7 @@ impl XmlReader {
     }
 
     fn read_xml_internal(file: &FileContent, file_name: &str, files: &Files) -> WriterResult<RustDocument> {
-        Self::read_xml_with_namespaces(file, file_name, files, &[])
+        Self::read_xml_with_namespaces(file, file_name, files, &[], Vec::new())
     }
 
     fn read_xml_with_namespaces(
@@ -143,6 +143,7 @@ impl XmlReader {
         file_name: &str,
         files: &Files,
         known_namespaces: &[Rc<Namespace>],
+        known_nodes: Vec<Rc<RustNode>>,
     ) -> WriterResult<RustDocument> {
         // mark the file before its imports are followed, so that a file that (transitively) imports
         // itself is not read again
@@ -163,6 +164,7 @@ impl XmlReader {
         let doc = roxmltree::Document::parse(xml)
             .map_err(|e| WriterError::new(format!("Unable to parse file {file_name}: {e}")))?;
         let mut rust_doc = RustDocument::init_with_namespaces(&doc, known_namespaces);
+        rust_doc.known_nodes = known_nodes;
 
         for child in doc.root().children() {
             Self::read(child, files, &mut rust_doc)?;
@@ -252,7 +254,10 @@ impl XmlReader {
     fn read_xsd<'n>(node: Node<'n, 'n>, files: &Files, doc: &mut RustDocument) -> WriterResult<()> {
         for child in node.children() {
             if child.tag_name().name() == "import" {
-                let imported = Self::process_import(child, files, &doc.namespaces)?;
+                // the imported file may refer to what has been read so far (a file shared by two importers is
+                // only read for the first one)
+                let known_nodes = doc.known_nodes.iter().chain(doc.nodes.iter()).cloned().collect();
+                let imported = Self::process_import(child, files, &doc.namespaces, known_nodes)?;
                 doc.extend(imported);
                 continue;
             }
@@ -269,7 +274,12 @@ impl XmlReader {
         Ok(())
     }
 
-    fn process_import(node: Node, files: &Files, known_namespaces: &[Rc<Namespace>]) -> WriterResult<RustDocument> {
+    fn process_import(
+        node: Node,
+        files: &Files,
+        known_namespaces: &[Rc<Namespace>],
+        known_nodes: Vec<Rc<RustNode>>,
+    ) -> WriterResult<RustDocument> {
         #[cfg(feature = "verif")]
         if node.attribute("namespace").is_none() {
             crate::verif::import(None, node.attribute("schemaLocation"), "no_namespace");
@@ -305,7 +315,7 @@ impl XmlReader {
 
         #[cfg(feature = "verif")]
         crate::verif::import(Some(namespace), Some(schema_location), "recurse");
-        let rust_doc = Self::read_xml_with_namespaces(file, schema_location, files, known_namespaces)?;
+        let rust_doc = Self::read_xml_with_namespaces(file, schema_location, files, known_namespaces, known_nodes)?;
         Ok(rust_doc)
     }
 }
